@@ -50,53 +50,8 @@ theorem recovered_operational (reachOf : Nat → List (Nat × Hash)) (c : Cfg) (
     (hc : CrashImg c.durable c.pending img) :
     ∃ a tx st, recover img = some st ∧
       Safe reachOf { durable := img, pending := [], aSlot := a, aTx := tx, aSt := st, inflight := none } := by
-  obtain ⟨h1, h2, h3, h4, h5, h6⟩ := hs
-  cases hi : c.inflight with
-  | none =>
-    have hq := h5 hi
-    have hsl : ∀ k, img.slots k = c.durable.slots k := fun k =>
-      crashImg_slots hc k (fun o ho => clearOf_not_hdr _ o (hq o ho) k)
-    have hpg : ∀ p hh, (p, hh) ∈ reachOf c.aSt → img.pages p = some hh := fun p hh hm => by
-      rw [crashImg_pages hc p (fun o ho => clearOf_not_touches _ o (hq o ho) p hh hm)]; exact h4 p hh hm
-    refine ⟨c.aSlot, c.aTx, c.aSt, ?_, ⟨h1, by rw [hsl]; exact h2, by intro t s; rw [hsl]; exact h3 t s, hpg, ?_, ?_⟩⟩
-    · exact recover_active img c.aSlot h1 c.aTx c.aSt (by rw [hsl]; exact h2) (by intro t s; rw [hsl]; exact h3 t s)
-    · intro _ o ho; simp at ho
-    · intro st hst; simp at hst
-  | some st =>
-    obtain ⟨hp, hint⟩ := h6 st hi
-    rw [hp] at hc
-    have hne : ¬ (c.aSlot = 1 - c.aSlot) := by omega
-    have hsl2 : 1 - (1 - c.aSlot) = c.aSlot := by omega
-    have hpages : ∀ q, img.pages q = c.durable.pages q := fun q =>
-      crashImg_pages hc q (by intro o ho; simp at ho; subst ho; simp [touches])
-    cases hc with
-    | keep hc' =>
-      cases hc'
-      refine ⟨1 - c.aSlot, c.aTx + 1, st, ?_, ⟨by show 1 - c.aSlot ≤ 1; omega, by simp [applyOp], ?_, fun p hh hm => by rw [hpages]; exact hint p hh hm, ?_, ?_⟩⟩
-      · apply recover_active _ (1 - c.aSlot) (by omega) (c.aTx + 1) st
-        · simp [applyOp]
-        · intro t s; rw [hsl2]; simp only [applyOp, hne, if_false, h2, Option.some.injEq, Prod.mk.injEq]
-          intro ⟨e, _⟩; omega
-      · intro t s; dsimp only
-        rw [hsl2]; simp only [applyOp, hne, if_false, h2, Option.some.injEq, Prod.mk.injEq]
-        intro ⟨e, _⟩; omega
-      · intro _ o ho; simp at ho
-      · intro st' hst'; simp at hst'
-    | drop hc' =>
-      cases hc'
-      exact ⟨c.aSlot, c.aTx, c.aSt, recover_active _ c.aSlot h1 c.aTx c.aSt h2 h3,
-        ⟨h1, h2, h3, h4, by intro _ o ho; simp at ho, by intro st' hst'; simp at hst'⟩⟩
-    | tear hc' =>
-      cases hc'
-      refine ⟨c.aSlot, c.aTx, c.aSt, ?_, ⟨h1, ?_, ?_, fun p hh hm => by simp only [tearOp]; exact h4 p hh hm, ?_, ?_⟩⟩
-      · apply recover_active _ c.aSlot h1 c.aTx c.aSt
-        · simp only [tearOp, hne, if_false]; exact h2
-        · intro t s; simp [tearOp]
-      · dsimp only
-        simp only [tearOp, hne, if_false]; exact h2
-      · intro t s; simp [tearOp]
-      · intro _ o ho; simp at ho
-      · intro st' hst'; simp at hst'
+  obtain ⟨a, tx, st, hr, _, hsafe⟩ := imgOk_restart hs.slotLe (hs.crashOk hc)
+  exact ⟨a, tx, st, hr, hsafe⟩
 
 /-- a freshly created file: slot 0 carries txid 1, slot 1 txid 0, both naming state 0 -/
 def initCfg (pages : Nat → Option Hash) : Cfg :=
@@ -135,5 +90,32 @@ def exTrace : List TOp := [.write 5 77, .write 6 88, .sync, .hdr 1 2 1, .sync, .
 
 example : ((initCfg (fun _ => none)).run exReach exTrace).isSome = true := by decide
 example : ((initCfg (fun _ => none)).run exReach [.write 5 77, .hdr 1 2 1]).isSome = false := by decide
+
+/-- the header rule without a preceding sync (open-time max-size update, file.go initTxMaxSize: a copy
+    of the ACTIVE header with the next txid goes to the inactive slot): accepted although the
+    truncate of an earlier rollback is still pending, because that truncate stays clear of the pages
+    of the named state -/
+def mxReach : Nat → List (Nat × Hash) := fun st => if st = 0 then [(2, 7), (3, 9)] else if st = 1 then [(5, 1)] else []
+def mxInit : Cfg := startCfg 0 1 0 (fun p => if p = 2 then some 7 else if p = 3 then some 9 else none)
+
+theorem mxInit_safe : Safe mxReach mxInit :=
+  safe_start mxReach 0 1 0 _ (by omega) (by omega) (by
+    intro p hh h
+    simp only [mxReach, if_true, List.mem_cons, Prod.mk.injEq, List.not_mem_nil, or_false] at h
+    rcases h with ⟨rfl, rfl⟩ | ⟨rfl, rfl⟩ <;> rfl)
+
+example : (mxInit.run mxReach [.trunc 6, .hdr 1 2 0, .sync]).isSome = true := by decide
+example : (mxInit.run mxReach [.trunc 6, .hdr 1 2 0, .sync]).map (fun c => (c.aSlot, c.aTx, c.aSt, c.inflight)) =
+    some (1, 2, 0, none) := by decide
+/-- rejected: the pending write touches a page of the named state -/
+example : (mxInit.run mxReach [.write 3 99, .hdr 1 2 0]).isSome = false := by decide
+/-- rejected: a pending truncate that would cut a page of the named state (it is rejected already as a truncate) -/
+example : (mxInit.run mxReach [.trunc 3, .hdr 1 2 0]).isSome = false := by decide
+/-- still rejected: page 5 of the new state is written but not durable yet -/
+example : (mxInit.run mxReach [.write 5 1, .hdr 1 2 1]).isSome = false := by decide
+/-- ... and accepted after the sync, as ever -/
+example : (mxInit.run mxReach [.write 5 1, .sync, .hdr 1 2 1, .sync]).isSome = true := by decide
+/-- a pending write to ANOTHER page does not block the header of a state whose pages are durable -/
+example : (mxInit.run mxReach [.write 8 4, .hdr 1 2 0, .sync]).isSome = true := by decide
 
 end TxVerif
